@@ -50,6 +50,15 @@ def option_space(ctx, modules):
             if isinstance(n, ast.Assign) and len(n.targets) == 1 and isinstance(n.targets[0], ast.Name) and isinstance(n.value, ast.Subscript) \
                     and isinstance(n.value.value, ast.Name) and n.value.value.id == "properties" and isinstance(n.value.slice, ast.Constant):
                 alias[n.targets[0].id] = n.value.slice.value
+            # x = properties.get('key', default): the key is optional
+            if isinstance(n, ast.Assign) and len(n.targets) == 1 and isinstance(n.targets[0], ast.Name) and isinstance(n.value, ast.Call) \
+                    and isinstance(n.value.func, ast.Attribute) and n.value.func.attr == "get" and isinstance(n.value.func.value, ast.Name) \
+                    and n.value.func.value.id == "properties" and n.value.args and isinstance(n.value.args[0], ast.Constant) \
+                    and isinstance(n.value.args[0].value, str) and len(n.value.args) == 2:
+                alias[n.targets[0].id] = n.value.args[0].value
+                presence.add(n.value.args[0].value)
+                if isinstance(n.value.args[1], ast.Constant) and isinstance(n.value.args[1].value, str):
+                    values.setdefault(n.value.args[0].value, set()).add(n.value.args[1].value)
         for n in ast.walk(m.tree):
             if isinstance(n, ast.Compare) and len(n.ops) == 1 and isinstance(n.ops[0], ast.Eq) and isinstance(n.left, ast.Name) \
                     and n.left.id in alias and isinstance(n.comparators[0], ast.Constant) and isinstance(n.comparators[0].value, str):
